@@ -119,6 +119,7 @@ pub fn run(run: &Run) {
     run.explore(&u2::byte_universe(run.tier.pick(3, 5)));
     run.explore(&super::c11::EmbeddedTlv { n: run.tier.pick(6, 8) });
     run.explore(&super::c11::EmbeddedText { n: run.tier.pick(6, 8) });
+    run.explore(&super::c11::EmbeddedStructured::new(false));
     run.explore(&super::c11::NearMaxStructured { span: run.tier.pick(35, 135) });
     explore_all(run, &seq_universes(run.tier, false, true));
 }
